@@ -89,6 +89,14 @@ func Make(shape string, seed int64, n int) []byte {
 			}
 			b = append(b, seg...)
 			filler()
+		case "contlead":
+			// valid wide UTF-8 text behind v stray continuation bytes: a block cut inside a character starts with up to three of
+			// them, v >= 4 is what a damaged or mis-cut stream looks like
+			for k := 0; k < v; k++ {
+				b = append(b, byte(0x80+r.Intn(0x40)))
+			}
+			t := Make("utf8cjk", seed+3, n)
+			b = append(b, t...)
 		case "runlen", "zrun":
 			// a run of exactly v equal bytes (zeros for zrun) between incompressible neighbours, then text, then the same run at the end
 			c := byte(0)
